@@ -52,14 +52,12 @@ impl FiniteDomain {
     pub fn copy_before<P: FnMut(&isize) -> bool>(&self, mut predicate: P) -> Option<FiniteDomain> {
         match self {
             FiniteDomain::Interval(r) => match r.clone().into_iter().find(predicate) {
-                Some(u) => {
-                    let r = *r.start()..=u.saturating_sub(1);
-                    if r.is_empty() {
-                        None
-                    } else {
-                        Some(FiniteDomain::Interval(r))
+                Some(u) => match u.checked_sub(1) {
+                    Some(last) if *r.start() <= last => {
+                        Some(FiniteDomain::Interval(*r.start()..=last))
                     }
-                }
+                    _ => None,
+                },
                 None => Some(self.clone()),
             },
             FiniteDomain::Sparse(v) => {
